@@ -28,6 +28,9 @@ def tasks(tier):
                 if q and pol != "DualNorm" and (cons or mode == "time"):
                     continue
                 t.append(dict(module="twin", fn="h_prefix", shape=dict(K=(2 if pol in twin.loop.HEAVY and cons else K), policy=pol, vars=["boxed"], cons=cons, mode=mode), opts=o))
+    # the limited run uses the reference run's own Params object (limit set on it, new Solver)
+    for pol, cons in (("DualNorm", ["eq0"]), ("ObjectiveFilter", [])) if q else (("DualNorm", ["eq0"]), ("ObjectiveFilter", []), ("DualEquilibration", ["eq0"]), ("LagrangianFilter", ["eq0"])):
+        t.append(dict(module="twin", fn="h_prefix", shape=dict(K=2, policy=pol, vars=["boxed"], cons=cons, mode="iterations", share_params=True), opts=o))
     for nt, cons in (("Simplified", []), ("Full", ["eq0"])):
         t.append(dict(module="ctrl", fn="h_step", shape=dict(controller="Exact", newton=nt, vars=["boxed"], cons=cons, faults=False, time_limit=True), opts=dict(mulmode="uf", timeout_ms=10000)))
     return t
